@@ -1,5 +1,6 @@
 import IwModel.Lemmas.KvApi
 import IwModel.Lemmas.KvBridge
+import IwModel.Lemmas.KvApiSpec
 /-! # C01 — the KV store behaves as an ordered map
 
 Property theorems only; helper lemmas live in `IwModel/Lemmas/Kv.lean`.
@@ -383,5 +384,160 @@ example : flatten (runNode (KvApi.gtE (KvApi.realFlags false)) ⟨[], []⟩ exOp
 example : ∃ ek, KvApi.toEffective (KvApi.vnumFlags true) [44, 1, 0, 0, 0, 0, 0, 0] 9 = .ok ek ∧
     KvApi.Valid (KvApi.vnumFlags true) ek :=
   ⟨_, rfl, api_keys_valid _ [44, 1, 0, 0, 0, 0, 0, 0] 9 _ (by simp) rfl⟩
+
+/-! ### 6. the property as written: the whole store against the reference map, call by call
+
+`KvApiSpec.SpecStore` (`Model/KvApiSpec.lean`) is the ordered reference map of the property: per
+database one sorted association list, no nodes, no levels, no cursors; its operations return the
+canonical result lines. `absStore` reads a `KvApi.Store` (the node-level model that the differential
+run compares with the C code) as such a reference store; `StoreInv` says every database has a valid
+chain under the comparator of its own flags and holds valid keys only. Each API call returns the line
+the reference returns, lands on the store the reference lands on, and keeps `StoreInv` — whatever
+level the put draws, whatever cursors are open. -/
+section Api
+open KvApi KvApiSpec
+
+/-- `iwkv_puth` in every flavour — plain, `IWKV_NO_OVERWRITE`, `IWKV_VAL_INCREMENT`, accepting or
+    refusing put handler, any key mode, any database of the store, any drawn level -/
+theorem api_put_refines (s : Store) (inv : StoreInv s) (id : Nat) (key : Bytes) (comp : Nat) (val : Bytes)
+    (fl lvl ph : Nat) :
+    (KvApi.put s id key comp val fl lvl ph).2 = (sput (absStore s) id key comp val fl ph).2 ∧
+    absStore (KvApi.put s id key comp val fl lvl ph).1 = (sput (absStore s) id key comp val fl ph).1 ∧
+    StoreInv (KvApi.put s id key comp val fl lvl ph).1 := by
+  have h := putR_refines s inv id key comp val fl lvl ph
+  simp only [KvApi.put, sput]
+  exact ⟨by rw [h.1], h.2.1, h.2.2⟩
+
+/-- `iwkv_get` (a read: the store is not touched) -/
+theorem api_get_refines (s : Store) (inv : StoreInv s) (id : Nat) (key : Bytes) (comp : Nat) :
+    KvApi.get s id key comp = sget (absStore s) id key comp := by
+  simp only [KvApi.get, sget, sgetDb_abs]
+  cases hg : getDb s id with
+  | none => rfl
+  | some d =>
+    have hf : (absDb d).flags = d.flags := rfl
+    simp only [Option.map_some, hf]
+    cases he : toEffective d.flags key comp with
+    | error e => rfl
+    | ok ek =>
+      have hl : (absDb d).lookup ek = specGet (gtE d.flags) (flatten d.db.nodes) ek := rfl
+      simp only [hl, db_get_refines (dbInv_of_getDb inv hg) key comp ek he]
+      cases specGet (gtE d.flags) (flatten d.db.nodes) ek <;> rfl
+
+/-- `iwkv_get_copy`: length of the value and the part that fits the caller's buffer -/
+theorem api_getcopy_refines (s : Store) (inv : StoreInv s) (id : Nat) (key : Bytes) (comp : Nat) (bufsz : Nat) :
+    KvApi.getCopy s id key comp bufsz = sgetCopy (absStore s) id key comp bufsz := by
+  simp only [KvApi.getCopy, sgetCopy, sgetDb_abs]
+  cases hg : getDb s id with
+  | none => rfl
+  | some d =>
+    have hf : (absDb d).flags = d.flags := rfl
+    simp only [Option.map_some, hf]
+    cases he : toEffective d.flags key comp with
+    | error e => rfl
+    | ok ek =>
+      have hl : (absDb d).lookup ek = specGet (gtE d.flags) (flatten d.db.nodes) ek := rfl
+      simp only [hl, db_get_refines (dbInv_of_getDb inv hg) key comp ek he]
+      cases specGet (gtE d.flags) (flatten d.db.nodes) ek <;> rfl
+
+/-- `iwkv_del`, also when a node loses its last record and is unlinked -/
+theorem api_del_refines (s : Store) (inv : StoreInv s) (id : Nat) (key : Bytes) (comp : Nat) :
+    (KvApi.del s id key comp).2 = (sdel (absStore s) id key comp).2 ∧
+    absStore (KvApi.del s id key comp).1 = (sdel (absStore s) id key comp).1 ∧
+    StoreInv (KvApi.del s id key comp).1 := by
+  simp only [KvApi.del, sdel, sgetDb_abs]
+  cases hg : getDb s id with
+  | none => exact ⟨rfl, rfl, inv⟩
+  | some d =>
+    have dinv := dbInv_of_getDb inv hg
+    have hro : (absStore s).readonly = s.readonly := rfl
+    have hf : (absDb d).flags = d.flags := rfl
+    simp only [Option.map_some, hro, hf]
+    cases hr : s.readonly with
+    | true => exact ⟨rfl, rfl, inv⟩
+    | false =>
+      simp only [Bool.false_eq_true, if_false]
+      cases he : toEffective d.flags key comp with
+      | error e => exact ⟨rfl, rfl, inv⟩
+      | ok ek =>
+        have hl : (absDb d).lookup ek = specGet (gtE d.flags) (flatten d.db.nodes) ek := rfl
+        have hd := db_del_refines dinv key comp ek he
+        have hab : absDb { d with db := (Kv.del (gtE d.flags) d.db ek).1 } = (absDb d).erase ek := by
+          simp only [absDb, SpecDb.erase]; rw [hd.2.1]
+        simp only [hl]
+        rw [hd.1]
+        cases specGet (gtE d.flags) (flatten d.db.nodes) ek with
+        | none => exact ⟨rfl, rfl, inv⟩
+        | some v =>
+          simp only [Option.isSome_some, if_true]
+          exact ⟨trivial, by rw [abs_setDb, hab], storeInv_setDb inv id hd.2.2⟩
+
+/-- per-database metadata: `iwkv_db_set_meta` and `iwkv_db_get_meta` -/
+theorem api_meta_refines (s : Store) (inv : StoreInv s) (id : Nat) (m : Bytes) (bufsz known : Nat) :
+    ((KvApi.metaSet s id m).2 = (smetaSet (absStore s) id m).2 ∧
+      absStore (KvApi.metaSet s id m).1 = (smetaSet (absStore s) id m).1 ∧
+      StoreInv (KvApi.metaSet s id m).1) ∧
+    KvApi.metaGet s id bufsz known = smetaGet (absStore s) id bufsz known := by
+  refine ⟨?_, ?_⟩
+  · simp only [KvApi.metaSet, smetaSet, sgetDb_abs]
+    cases hg : getDb s id with
+    | none => exact ⟨rfl, rfl, inv⟩
+    | some d =>
+      have dinv := dbInv_of_getDb inv hg
+      have hro : (absStore s).readonly = s.readonly := rfl
+      simp only [Option.map_some, hro]
+      cases hr : s.readonly with
+      | true => exact ⟨rfl, rfl, inv⟩
+      | false =>
+        cases hm : m.isEmpty with
+        | true => exact ⟨rfl, rfl, inv⟩
+        | false =>
+          simp only [Bool.false_eq_true, if_false]
+          exact ⟨trivial, by rw [abs_setDb]; rfl, storeInv_setDb inv id dinv⟩
+  · simp only [KvApi.metaGet, smetaGet, sgetDb_abs]
+    cases hg : getDb s id with
+    | none => rfl
+    | some d => rfl
+
+/-- `iwkv_db`: fetch an existing database (flags must match) or create an empty one -/
+theorem api_opendb_refines (s : Store) (inv : StoreInv s) (id flags : Nat) :
+    (KvApi.openDb s id flags).2 = (sopenDb (absStore s) id flags).2 ∧
+    absStore (KvApi.openDb s id flags).1 = (sopenDb (absStore s) id flags).1 ∧
+    StoreInv (KvApi.openDb s id flags).1 := by
+  simp only [KvApi.openDb, sopenDb, sgetDb_abs]
+  cases hg : getDb s id with
+  | some d =>
+    have hf : (absDb d).flags = d.flags := rfl
+    simp only [Option.map_some, hf]
+    split <;> exact ⟨rfl, rfl, inv⟩
+  | none =>
+    have hro : (absStore s).readonly = s.readonly := rfl
+    simp only [Option.map_none, hro]
+    cases hr : s.readonly with
+    | true => exact ⟨rfl, rfl, inv⟩
+    | false =>
+      simp only [Bool.false_eq_true, if_false]
+      refine ⟨trivial, by simp [absStore, absDb, flatten], ?_⟩
+      intro x hx
+      simp only [List.mem_append, List.mem_singleton] at hx
+      rcases hx with hx | rfl
+      · exact inv x hx
+      · exact ⟨nodeInv_nil, keysOn_nil⟩
+
+/-- `iwkv_db_destroy` -/
+theorem api_destroydb_refines (s : Store) (inv : StoreInv s) (id : Nat) :
+    (KvApi.destroyDb s id).2 = (sdestroyDb (absStore s) id).2 ∧
+    absStore (KvApi.destroyDb s id).1 = (sdestroyDb (absStore s) id).1 ∧
+    StoreInv (KvApi.destroyDb s id).1 := by
+  simp only [KvApi.destroyDb, sdestroyDb, sgetDb_abs]
+  cases hg : getDb s id with
+  | none => exact ⟨rfl, rfl, inv⟩
+  | some d =>
+    simp only [Option.map_some]
+    refine ⟨trivial, by simp [absStore, List.filter_map, Function.comp_def], ?_⟩
+    intro x hx
+    exact inv x (List.mem_filter.1 hx).1
+
+end Api
 
 end IwModel.C01
